@@ -22,6 +22,7 @@ package main
 
 import (
 	"bytes"
+	"encoding/json"
 	"fmt"
 	"go/ast"
 	"go/parser"
@@ -29,6 +30,7 @@ import (
 	"go/token"
 	"os"
 	"path/filepath"
+	"strconv"
 	"strings"
 )
 
@@ -592,6 +594,87 @@ func (fa *facts) nested(f *ast.File) {
 	}
 }
 
+// errorTexts collects, for the harness's name alphabet, the texts the error converters on unzip's error path match
+// against error MESSAGES (string literals handed to CorrespondTo / strings.Contains in ConvertFileSystemError,
+// isTimeoutError, convertZipError, platform.ConvertError, commonerrors.ConvertContextError) and the message of every
+// commonerrors sentinel: an escaping entry whose name quotes one of them must still be refused with the malicious kind.
+func errorTexts(repo string) (conv []string, kinds []string) {
+	seen := map[string]bool{}
+	grab := func(file string, funcs ...string) {
+		f, err := parser.ParseFile(fset, filepath.Join(repo, "utils", file), nil, 0)
+		if err != nil {
+			die(token.NoPos, "parse %s: %v", file, err)
+		}
+		for _, d := range f.Decls {
+			fd, ok := d.(*ast.FuncDecl)
+			if !ok || fd.Body == nil {
+				continue
+			}
+			want := false
+			for _, n := range funcs {
+				if fd.Name.Name == n {
+					want = true
+				}
+			}
+			if !want {
+				continue
+			}
+			ast.Inspect(fd.Body, func(m ast.Node) bool {
+				c, ok := m.(*ast.CallExpr)
+				if !ok {
+					return true
+				}
+				fn := src(c.Fun)
+				if fn != "commonerrors.CorrespondTo" && fn != "CorrespondTo" && fn != "strings.Contains" && fn != "strings.HasPrefix" && fn != "strings.HasSuffix" && fn != "strings.EqualFold" {
+					return true
+				}
+				for _, a := range c.Args {
+					if l, ok := a.(*ast.BasicLit); ok && l.Kind == token.STRING {
+						t, err := strconv.Unquote(l.Value)
+						if err == nil && len(t) >= 3 && !strings.ContainsRune(t, 0) && !seen[t] {
+							seen[t] = true
+							conv = append(conv, t)
+						}
+					}
+				}
+				return true
+			})
+		}
+	}
+	grab("filesystem/filesystem.go", "ConvertFileSystemError", "isTimeoutError")
+	grab("filesystem/zip.go", "convertZipError")
+	grab("platform/os.go", "ConvertError")
+	grab("commonerrors/errors.go", "ConvertContextError")
+	// sentinel messages: X = errors.New("...") at package level of commonerrors/errors.go
+	f, err := parser.ParseFile(fset, filepath.Join(repo, "utils", "commonerrors", "errors.go"), nil, 0)
+	if err != nil {
+		die(token.NoPos, "parse commonerrors/errors.go: %v", err)
+	}
+	for _, d := range f.Decls {
+		gd, ok := d.(*ast.GenDecl)
+		if !ok || gd.Tok != token.VAR {
+			continue
+		}
+		for _, sp := range gd.Specs {
+			vs, ok := sp.(*ast.ValueSpec)
+			if !ok {
+				continue
+			}
+			for _, v := range vs.Values {
+				if c, ok := v.(*ast.CallExpr); ok && src(c.Fun) == "errors.New" && len(c.Args) == 1 {
+					if l, ok := c.Args[0].(*ast.BasicLit); ok && l.Kind == token.STRING {
+						if t, err := strconv.Unquote(l.Value); err == nil && len(t) >= 3 && !seen[t] {
+							seen[t] = true
+							kinds = append(kinds, t)
+						}
+					}
+				}
+			}
+		}
+	}
+	return
+}
+
 func coqBool(b bool) string {
 	if b {
 		return "true"
@@ -664,6 +747,15 @@ func main() {
 		if err := os.WriteFile(outPath, []byte(b.String()), 0o644); err != nil {
 			die(token.NoPos, "write: %v", err)
 		}
+	}
+	conv, kinds := errorTexts(repo)
+	if len(conv) == 0 || len(kinds) == 0 {
+		die(token.NoPos, "no converter texts (%d) / sentinel messages (%d) found", len(conv), len(kinds))
+	}
+	tj, _ := json.MarshalIndent(map[string][]string{"converter_texts": conv, "kind_messages": kinds}, "", " ")
+	tpath := filepath.Join(filepath.Dir(outPath), "triggers.json")
+	if oldt, _ := os.ReadFile(tpath); string(oldt) != string(tj) {
+		_ = os.WriteFile(tpath, tj, 0o644)
 	}
 	fmt.Printf("zipslip2coq: %s written (%d facts)\n", outPath, len(fields))
 }
